@@ -187,6 +187,60 @@ pub fn run_case(case: &Case) -> (Vec<(String, String)>, Info) {
                 continue;
             }
         };
+        if e == TxEdit::TwiceInBlock {
+            // both spends are valid alone; the block that carries both is not. Block::create refuses
+            // to build it, so it is assembled by hand around an honest block that carries the first
+            // spend at a generated position among the fillers.
+            let s0 = bad.from[0].clone();
+            let first_spend = tx_from_inputs(vec![s0.clone()], vec![(creator.0, s0.amount)], &creator, ts, vec![]);
+            let mut txs = vec![];
+            let mut reserved: BTreeSet<SaitoUTXOSetKey> = [s0.get_utxoset_key()].into_iter().collect();
+            for f in 0..case.fillers {
+                let plan = TxPlan { payer: (f + 2) % 4, payee: 0, amount: 1_000, fee: 10, max_inputs: 1, ts: ts + 10 + f as u64 };
+                if let Some(t) = build_honest_tx(&node, &plan, for_block, &mut reserved) {
+                    txs.push(t);
+                }
+            }
+            let at = (case.victim as usize + case.fillers as usize) % (txs.len() + 1);
+            txs.insert(at, first_spend);
+            let gt = if density_needs_gt(&node) { block_on(node.mine_gt(tip_hash, &creator, 992)) } else { None };
+            let mut blk = match block_on(node.make_block_as(&creator, tip_hash, ts, txs, gt)) {
+                Ok(b) => b,
+                Err(_) => {
+                    info.discarded += 1;
+                    continue;
+                }
+            };
+            // the second spend goes behind the first one, directly or at the end
+            let pos_first = blk.transactions.iter().position(|t| t.from.first().map(|s| s.get_utxoset_key()) == Some(s0.get_utxoset_key())).unwrap_or(0);
+            let pos = if case.attacker % 2 == 0 { pos_first + 1 } else { blk.transactions.len() };
+            blk.transactions.insert(pos.min(blk.transactions.len()), bad.clone());
+            re_sign(&mut blk, &creator, true);
+            // as a received block: through the wire format
+            let blk = match saito_core::core::consensus::block::Block::deserialize_from_net(&blk.serialize_for_net(saito_core::core::consensus::block::BlockType::Full)) {
+                Ok(mut b) => {
+                    let _ = b.generate();
+                    b
+                }
+                Err(_) => continue,
+            };
+            info.verdicts += 1;
+            info.nontrivial.push((e, "block"));
+            let (out, _steps) = guarded_add(&mut node, blk.clone(), 64);
+            match out {
+                StepOutcome::Result("added_lc") | StepOutcome::Result("added_side") => {
+                    v.push((format!("C01|edit={:?}|layer=block", e), format!("block validation accepted a block in which two transactions (positions {} and {}) spend the same output, state class {}", pos_first, pos, info.class)));
+                    return (v, info);
+                }
+                StepOutcome::Panicked(site, msg) => {
+                    v.push((format!("C01|edit={:?}|layer=block|panic={}", e, site), format!("add_block panicked at {} on a block in which two transactions spend the same output: {}", site, msg)));
+                    return (v, info);
+                }
+                StepOutcome::Result(_) => {}
+                StepOutcome::Diverged(_) => return (v, info),
+            }
+            continue;
+        }
         // (a) the reference model must judge it invalid (else the edit was a no-op here)
         let privileged = !matches!(bad.transaction_type, TransactionType::Normal | TransactionType::Bound | TransactionType::BlockStake | TransactionType::Vip | TransactionType::GoldenTicket);
         let issues = ledger.judge_tx(&bad, for_block, 0, &BTreeSet::new());
@@ -381,7 +435,7 @@ pub fn arb_case(max_blocks: usize) -> impl Strategy<Value = Case> {
 }
 
 pub fn run(ctx: &mut Ctx) {
-    ctx.rule = "honest (forked) histories of 1..3*gp+3 blocks with fees, golden tickets and rebroadcasts bring a victim node into a state class {fresh, after_reorg, after_window_wrap} (gp in {4,5,6,8,12,100}); then every edit of the catalogue (forged/missing signature, mutated after signing, foreign-owned extra/only input, non-existent, inflated, expired, already-spent, duplicated input, overspend plain and via 2^64 wrap, privileged types Fee/SPV/ATR/Issuance/Vip/BlockStake/Bound used to mint) is built from the victim's real ledger; oracle: the independent reference ledger must judge it invalid (else discarded as a no-op), then Mempool::add_transaction_if_validates, VerificationThread::verify_tx and add_block of an attacker-built block (0..3 honest filler transactions) must all refuse it, and an honest spend must be accepted by all three. evaluations = verdicts. non-trivial = chain has >= 1 spent output; distinct = (edit, layer, state class, filler count, gp)".into();
+    ctx.rule = "honest (forked) histories of 1..3*gp+3 blocks with fees, golden tickets and rebroadcasts bring a victim node into a state class {fresh, after_reorg, after_window_wrap} (gp in {4,5,6,8,12,100}); then every edit of the catalogue (forged/missing signature, mutated after signing, foreign-owned extra/only input, non-existent, inflated, expired, already-spent, duplicated input inside one transaction and across two transactions of one block, overspend plain and via 2^64 wrap, privileged types Fee/SPV/ATR/Issuance/Vip/BlockStake/Bound used to mint) is built from the victim's real ledger; oracle: the independent reference ledger must judge it invalid (else discarded as a no-op), then Mempool::add_transaction_if_validates, VerificationThread::verify_tx and add_block of an attacker-built block (0..3 honest filler transactions) must all refuse it, and an honest spend must be accepted by all three. evaluations = verdicts. non-trivial = chain has >= 1 spent output; distinct = (edit, layer, state class, filler count, gp)".into();
     let cases = ctx.tier.pick(220u32, 8_000);
     pbt_run(ctx, "edit_catalogue", cases, arb_case(28), |c, case, counting| eval(c, case, counting));
 }
